@@ -380,7 +380,7 @@ WRITE_OWNERS = {
         ("towers", "insert"): {"store_tower_record"}, ("towers", "update"): {"store_appointment_receipt"}, ("towers", "delete"): {"remove_tower_record"},
         ("appointments", "insert"): {"store_appointment"}, ("appointments", "delete"): {"delete_pending_appointment"},
         ("pending_appointments", "insert"): {"store_pending_appointment"}, ("pending_appointments", "delete"): {"delete_pending_appointment"},
-        ("invalid_appointments", "insert"): {"store_invalid_appointment"},
+        ("invalid_appointments", "insert"): {"store_invalid_appointment"}, ("invalid_appointments", "delete"): {"store_appointment_receipt"},
         ("registration_receipts", "insert"): {"store_tower_record"},
         ("appointment_receipts", "insert"): {"store_appointment_receipt", "store_misbehaving_proof"},
         ("misbehaving_proofs", "insert"): {"store_misbehaving_proof"}, ("keys", "insert"): {"store_client_key"},
